@@ -54,3 +54,39 @@ func mustJSON(v any) json.RawMessage {
 	}
 	return b
 }
+
+// TestWitnessDeco writes the hand-minimised witnesses of the open findings about vertical padding and
+// borders (C12_WITNESS_DIR=findings/C12).
+func TestWitnessDeco(t *testing.T) {
+	dir := os.Getenv("C12_WITNESS_DIR")
+	if dir == "" {
+		t.Skip()
+	}
+	// pages of content height 104
+	base := []Rule{{Origin: "author", Decls: []Decl{{P: "size", V: []int{200, 144}}, {P: "margin", V: []int{20}}}}}
+	leaf := func(id string, h int) Item { return Item{Kind: "leaf", ID: id, H: h} }
+	para := func(id string) Item { return Item{Kind: "para", ID: id, N: 1, LH: 20} }
+	write := func(name, msg string, in In) {
+		in.Kind, in.FS = "witness", 10
+		in.buildDoc(noLegacy)
+		res := check(mustJSON(in))
+		out := map[string]any{"property": "C12", "msg": msg, "observed": res.Sig + ": " + res.Msg, "input": in}
+		b, _ := json.MarshalIndent(out, "", " ")
+		if err := os.WriteFile(dir+"/"+name+".json", b, 0o644); err != nil {
+			t.Fatal(err)
+		}
+		fmt.Println(name, "->", res.Verdict, res.Sig, res.Msg)
+	}
+	write("first-box-bottom-decoration-overflows", "a box with border-bottom:8px that is the first box of its page and whose five 20px lines fit the 104px page: the border is laid out below the page content box (y 120..128 for a page bottom at 124) although a break is possible between its children",
+		In{Rules: base, Items: []Item{{Kind: "box", ID: "u0", BorB: 8, Kids: []Item{para("u1"), para("u2"), para("u3"), para("u4"), para("u5")}}, leaf("u6", 20)}})
+	l := leaf("u1", 80)
+	l.BorB = 8
+	write("fixed-height-block-bottom-decoration-overflows", "a 20px block followed by a block with height:80px and border-bottom:8px on a 104px page: the content of the second block fits (ends at 100), its border box does not (108), and it is kept on the page although a break is possible before it",
+		In{Rules: base, Items: []Item{leaf("u0", 20), l, leaf("u2", 20)}})
+	k2 := leaf("u2", 40)
+	k2.BA = "avoid"
+	write("split-fragment-stale-bottom", "a box with padding-bottom:8px holding two 40px blocks, followed by a 40px block that does not fit; break-after:avoid on the last child forbids the break after the box, the break is moved between its two children, and the first fragment keeps the bottom padding (and the height) of the whole box",
+		In{Rules: base, Items: []Item{{Kind: "box", ID: "u0", PadB: 8, Kids: []Item{leaf("u1", 40), k2}}, leaf("u3", 40)}})
+	write("box-relayout-reduces-space-for-all-children", "a 20px block, then a box with border-bottom:12px holding blocks of 20, 20, 36 and 4px: the content fits the 104px page (100) and the border does not, the box is laid out again with 12px less room for every child, and the 36px child (ending at 96) is pushed to the next page although it fits and the break after it leaves no border on this page",
+		In{Rules: base, Items: []Item{leaf("u0", 20), {Kind: "box", ID: "u1", BorB: 12, Kids: []Item{leaf("u2", 20), leaf("u3", 20), leaf("u4", 36), leaf("u5", 4)}}, leaf("u6", 20)}})
+}
